@@ -2,10 +2,15 @@ import Infretis.Lemmas.RepexC03Load
 import Infretis.Lemmas.RepexC03AvailSys
 import Infretis.Lemmas.RepexC03Step
 import Infretis.Lemmas.RepexC03RRestore
+import Infretis.Lemmas.RepexC03Micro
+import Infretis.Lemmas.RepexC03Factory
+import Infretis.Lemmas.RepexC03AvailSysR
 /-!
 # C03 — a busy ensemble, path, engine or work directory is never shared
 
-Property theorems only (helper lemmas: `Infretis/Lemmas/RepexC03{Perm,Core,Treat,Eng,Sys,Init,Load,Step,Avail,AvailSys}.lean`).
+Property theorems only (helper lemmas: `Infretis/Lemmas/RepexC03{Perm,Core,Treat,Eng,Sys,Init,Load,Step,Avail,AvailSys,
+R*,Micro,Factory,AvailSysR}.lean`; models: `Model/Repex.lean`, `Model/RepexMicro.lean` (sub-steps), `Model/EngFactory.lean`
+(`create_engines`)).
 Model: `Infretis/Model/Repex.lean` — `REPEX_state` as a state machine and the two loops of
 `scheduler()` as the event system `sysStep` / `run` over explicit outcomes:
 `.start o` (one iteration of `while state.initiate()`), `.initDone` (the closing `initiate()` call),
@@ -20,9 +25,10 @@ completions, every outcome), every `y` with `run y0 evs = .ok y` — i.e. every 
 history the sampler can go through without raising.  Slots: ensemble `ens_num` lives in slot
 `ens_num + 1`; the last slot is the ghost.
 
-Restriction (stated, not hidden): fresh starts, `locked0 = []` (no jobs to re-issue from a restart
-file).  The re-issue branch of `pick_lock` re-locks whatever the restart file names and is outside
-these theorems.
+Sections 1–6: fresh starts, `locked0 = []` (no jobs to re-issue from a restart file).  Section 7
+(`_restart` theorems) covers the re-issue branch of `pick_lock` and chains of restarts; sections 9–11
+(sub-steps, `create_engines`, engine availability across restarts, the branch structure of `pick`)
+are stated for `Start` = fresh start or restart.
 -/
 namespace Infretis.C03
 open Infretis.Repex Infretis.Perm
@@ -543,7 +549,8 @@ recorded path in its recorded slot (live paths are distinct), so its swap is the
 locks exactly the recorded slots.  Records left over when `toinitiate` drops below 0 (fewer workers
 than records, or the early close of `initiate`) are never re-issued and carry no obligation.
 The fresh-start theorems of sections 1–5 are the special case `Start y0` by `Init y0`.
-Engine availability (section 6) is proved for fresh starts only. -/
+Engine availability (section 6) is proved there for fresh starts; section 10 extends it to restarts
+(`engine_always_available_*_restart`). -/
 
 /-- **A restart from the restart file of any reachable state is an `InitR` state** (load success as
     hypothesis; the C05 package proves it from the weight family). -/
@@ -920,5 +927,502 @@ theorem engine_objects_distinct (sizes : List Nat) :
     exact List.nodup_range'
 
 example : engineIds 0 [3, 2] = [[0, 1, 2], [3, 4]] := by decide
+
+/-! ## 9. "At every instant": the sub-steps of `treat_output` and `prep_md_items`
+
+The theorems of sections 1–5 speak about the instants BETWEEN scheduler events.  `Infretis.Repex.Micro`
+(Model/RepexMicro.lean) lists one snapshot after every statement inside `treat_output` (per picked
+ensemble `add_traj`: `_trajs[ens] = traj`, `state[ens,:] = valid`, `unlock(ens)`; then every `swap` of
+`sort_trajstate`) and inside `prep_md_items` (`pick`: `swap`, `lock`, for a zero swap `swap`, `lock`
+again; re-issue branch of `pick_lock`: `swap`, `lock` per recorded ensemble) that writes `_locks`,
+`_trajs` or `state`.  `Snap.mine` is the ghost list of what the job under treatment has not released yet
+/ the job under construction has locked already.
+
+`ExactBusy st H`: in state `st`, exactly the ensemble slots listed in `H` (and the ghost) are marked
+busy, no slot is listed twice, every listed (slot, path) pair has that path in that slot with a
+non-zero own-ensemble weight, and live paths are pairwise distinct.
+
+Named transient windows (and nothing else):
+* between `_trajs[ens] = traj` and `unlock(ens)` (snapshots `setTraj`, `setRow`) the slot is still busy
+  and already holds the NEW path (ACC) — `mine` lists it with the new number; `treat_substeps_mine`;
+* the record `locked` (what `write_toml` would dump) loses the completing job at its first picked
+  ensemble while its slots stay busy until their `unlock`; `write_toml` is only called at the end of
+  `treat_output` / `loop()`, where `locked_record_matches_inflight` holds again;
+* inside `pick` the new job's slot is locked before the job is on record / in flight: `mine`. -/
+
+open Infretis.Repex.Micro in
+/-- exactly the slots of `H` are busy, each with its path in place, live paths distinct -/
+def ExactBusy (st : St) (H : List (Nat × Nat)) : Prop :=
+  st.locks.length = st.n ∧ st.locks[st.n - 1]? = some true ∧
+  (∀ e, e < st.n - 1 → (st.locks[e]? = some true ↔ e ∈ H.map Prod.fst)) ∧
+  (H.map Prod.fst).Nodup ∧
+  (∀ e pn, (e, pn) ∈ H → e < st.n - 1 ∧ st.trajs[e]? = some (some pn) ∧ entryM st.W e e ≠ 0) ∧
+  (∀ a b pn, a < st.n - 1 → b < st.n - 1 →
+    st.trajs[a]? = some (some pn) → st.trajs[b]? = some (some pn) → a = b)
+
+theorem exactBusy_of_coreR {st : St} {H : List (Nat × Nat)} {tn : Nat} (h : CoreR st H tn) :
+    ExactBusy st H :=
+  ⟨h.lenL, h.ghost, h.busy, h.nodup, h.heldOk, h.inj⟩
+
+open Infretis.Repex.Micro
+
+/-- the state `treat_output` runs on when the `k`-th job completes, with what the others hold -/
+theorem coreR_at_completion {y0 y : Sys} {evs : List Ev} (h0 : Start y0) (hr : run y0 evs = .ok y)
+    (k : Nat) (job : Job) (hj : y.jobs[k]? = some job) (s1 : St) (go : Bool)
+    (hloop : loop y.s = (s1, go)) :
+    CoreR s1 (heldJob job ++ held (y.jobs.eraseIdx k)) s1.trajNum := by
+  have hi := reach_invR h0 hr
+  obtain ⟨hle, hltn, _, _, _⟩ := loop_coreEqR y.s
+  rw [hloop] at hle hltn
+  simp only [] at hle hltn
+  rw [hltn]
+  exact (hi.core.congr hle).perm (held_perm_erase y.jobs k job hj)
+
+/-- **Every sub-step of `treat_output`, any completion order, fresh start or restart.**  When the
+    `k`-th job in flight completes (any `k`, any status, any new weights) in a reachable state and
+    `treat_output` does not raise, then at EVERY sub-step snapshot exactly the ensembles of the OTHER
+    jobs in flight plus those this job has not released yet (`mine`) are marked busy, each with its
+    path in place, and live paths are pairwise distinct. -/
+theorem treat_substeps_exact (y0 y : Sys) (evs : List Ev) (h0 : Start y0) (hr : run y0 evs = .ok y)
+    (k : Nat) (job : Job) (hj : y.jobs[k]? = some job) (s1 : St) (hloop : loop y.s = (s1, true))
+    (status : Status) (newW : List (List Rat)) (s2 : St) (pns : List Nat) (it : Nat)
+    (htr : treatOutput s1 job status newW (sortFuel s1) = .ok (s2, pns, it)) :
+    ∀ m ∈ treatTrace s1 job status newW (sortFuel s1),
+      ExactBusy m.st (m.mine ++ held (y.jobs.eraseIdx k)) := by
+  have hc1 := coreR_at_completion h0 hr k job hj s1 true hloop
+  intro m hm
+  exact exactBusy_of_coreR (treatTrace_coreR job status newW _ pns it hc1 htr m hm)
+
+/-- **What `mine` is along `treat_output`**: the ensembles of a suffix `picked.drop i` of the job's
+    picked list (the first `i` have been released, in order); at the `unlock` and `sort` snapshots with
+    the path numbers as handed out (`pn_old`), and during `sort_trajstate` nothing is left. -/
+theorem treat_substeps_mine (s s' : St) (job : Job) (status : Status) (newW : List (List Rat))
+    (fuel : Nat) (pns : List Nat) (it : Nat)
+    (ht : treatOutput s job status newW fuel = .ok (s', pns, it)) :
+    ∀ m ∈ treatTrace s job status newW fuel, ∃ i, i ≤ job.picked.length ∧
+      m.mine.map Prod.fst = (job.picked.drop i).map slotOf ∧
+      ((m.tag = .unlock ∨ m.tag = .sortSwap) →
+        m.mine = (job.picked.drop i).map (fun p => (slotOf p, p.pn))) ∧
+      (m.tag = .sortSwap → i = job.picked.length) :=
+  treatTrace_mine job status newW fuel pns it ht
+
+/-- **The sub-steps compose to `treat_output`**: the last snapshot has the slots, weights and flags
+    of the state `treat_output` returns, and the completing job holds nothing any more. -/
+theorem treat_substeps_end (y0 y : Sys) (evs : List Ev) (h0 : Start y0) (hr : run y0 evs = .ok y)
+    (k : Nat) (job : Job) (hj : y.jobs[k]? = some job) (s1 : St)
+    (status : Status) (newW : List (List Rat)) (s2 : St) (pns : List Nat) (it : Nat)
+    (htr : treatOutput s1 job status newW (sortFuel s1) = .ok (s2, pns, it)) :
+    ∃ m, (treatTrace s1 job status newW (sortFuel s1)).getLast? = some m ∧ m.mine = [] ∧
+      m.st.W = s2.W ∧ m.st.trajs = s2.trajs ∧ m.st.locks = s2.locks := by
+  have hi := reach_invR h0 hr
+  have hne : job.picked ≠ [] := by
+    rcases (hi.jobs job (List.mem_of_getElem? hj)).shape with h1 | h2
+    · intro h; rw [h] at h1; simp at h1
+    · intro h; rw [h] at h2; simp at h2
+  exact treatTrace_last job status newW _ pns it hne htr
+
+/-- the sub-steps of the completion of the zero swap in the concrete history -/
+def exTreatTr : List Snap :=
+  match (exAt 3).jobs[0]? with
+  | some job => treatTrace (loop (exAt 3).s).1 job .acc [[1], [1, 1, 0]] (sortFuel (loop (exAt 3).s).1)
+  | none => []
+
+/-- `treat_output` succeeds on that completion -/
+def exTreatOk : Bool :=
+  match (exAt 3).jobs[0]? with
+  | some job => (treatOutput (loop (exAt 3).s).1 job .acc [[1], [1, 1, 0]] (sortFuel (loop (exAt 3).s).1)).toBool
+  | none => false
+
+example : run exSys (exEvs.take 3) = .ok (exAt 3) ∧ (exAt 3).jobs[0]?.isSome = true
+    ∧ (loop (exAt 3).s).2 = true ∧ exTreatOk = true
+    ∧ exTreatTr.map (·.tag) = [.setTraj, .setRow, .unlock, .setTraj, .setRow, .unlock]
+    ∧ exTreatTr.map (·.st.locks) = [[true, true, true, true], [true, true, true, true], [false, true, true, true],
+        [false, true, true, true], [false, true, true, true], [false, false, true, true]]
+    ∧ exTreatTr.map (·.st.trajs) = [[some 3, some 1, some 2, none], [some 3, some 1, some 2, none],
+        [some 3, some 1, some 2, none], [some 3, some 4, some 2, none], [some 3, some 4, some 2, none],
+        [some 3, some 4, some 2, none]]
+    ∧ exTreatTr.map (·.mine) = [[(0, 3), (1, 1)], [(0, 3), (1, 1)], [(1, 1)], [(1, 4)], [(1, 4)], []] :=
+  ⟨ex_runs 3 (by decide), by decide +kernel, by decide +kernel, by decide +kernel, by decide +kernel,
+    by decide +kernel, by decide +kernel, by decide +kernel⟩
+
+/-- **Every sub-step of the pick part of `prep_md_items` during initiation** (fresh pick or re-issue
+    of a recorded job), fresh start or restart: exactly the ensembles of the jobs in flight plus
+    those the job under construction has locked so far (`mine`) are busy, paths in place; and the last
+    snapshot has the slots / flags of the state `prep_md_items` returns, `mine` being (a permutation
+    of) what the returned `md_items` lists. -/
+theorem prep_substeps_exact_start (y0 y : Sys) (evs : List Ev) (h0 : Start y0) (hr : run y0 evs = .ok y)
+    (s1 : St) (hgo : initiate y.s = (s1, true)) (o : PickOutcome) (saved : Nat) (s2 : St) (job : Job)
+    (ds : List Draw) (hprep : prep s1 none o saved = .ok (s2, job, ds)) :
+    (∀ m ∈ prepTrace s1 o saved, ExactBusy m.st (m.mine ++ held y.jobs)) ∧
+    ∃ m, (prepTrace s1 o saved).getLast? = some m ∧ m.st.W = s2.W ∧ m.st.trajs = s2.trajs ∧
+      m.st.locks = s2.locks ∧ m.mine.Perm (job.picked.map (fun p => (slotOf p, p.pn))) := by
+  have hi := reach_invR h0 hr
+  have hc1 : CoreR s1 (held y.jobs) s1.trajNum := by
+    rcases initiate_cases y.s with ⟨hin, _⟩ | ⟨ti, hti, hin⟩
+    · rw [hin] at hgo; simp at hgo
+    · rw [hin] at hgo
+      simp only [Prod.mk.injEq] at hgo
+      obtain ⟨rfl, _⟩ := hgo
+      exact hi.core.congrTo rfl rfl rfl rfl rfl (by
+        show 0 ≤ ti - 1 → 0 ≤ y.s.toinitiate
+        rcases hti with h1 | h1 <;> omega)
+  exact ⟨fun m hm => exactBusy_of_coreR (prepTrace_coreR none o saved job ds hc1 hprep m hm),
+    prepTrace_last none o saved job ds hc1 hprep⟩
+
+example : (initiate exSys.s).2 = true
+    ∧ (prep (initiate exSys.s).1 none { t := 0, e := 0, coin := true, partner := 1 } 0).toBool = true
+    ∧ (prep (initiate exSysR.s).1 none { t := 3, e := 3 } 0).toBool = true
+    ∧ (prepTrace (initiate exSys.s).1 { t := 0, e := 0, coin := true, partner := 1 } 0).map (·.tag)
+      = [.pickSwap, .pickLock, .zsSwap, .zsLock]
+    ∧ (prepTrace (initiate exSys.s).1 { t := 0, e := 0, coin := true, partner := 1 } 0).map (·.st.locks)
+      = [[false, false, false, true], [true, false, false, true], [true, false, false, true], [true, true, false, true]]
+    ∧ (prepTrace (initiate exSys.s).1 { t := 0, e := 0, coin := true, partner := 1 } 0).map (·.mine)
+      = [[], [(0, 0)], [(0, 0)], [(1, 1), (0, 0)]]
+    ∧ (prepTrace (initiate exSysR.s).1 { t := 3, e := 3 } 0).map (·.tag) = [.reSwap, .reLock, .reSwap, .reLock]
+    ∧ (prepTrace (initiate exSysR.s).1 { t := 3, e := 3 } 0).map (·.st.locks)
+      = [[false, false, false, true], [true, false, false, true], [true, false, false, true], [true, true, false, true]]
+    ∧ (prepTrace (initiate exSysR.s).1 { t := 3, e := 3 } 0).map (·.mine)
+      = [[], [(0, 0)], [(0, 0)], [(1, 1), (0, 0)]] :=
+  ⟨by decide +kernel, by decide +kernel, by decide +kernel, by decide +kernel, by decide +kernel,
+    by decide +kernel, by decide +kernel, by decide +kernel, by decide +kernel⟩
+
+/-- **One whole `step` event, sub-step by sub-step** (the composed operation of the main loop:
+    `loop()`, `treat_output` of the `k`-th job, then — iff `cstep + workers ≤ tsteps` —
+    `prep_md_items` for the same worker): every snapshot of `treat_output` and every snapshot of the
+    following pick keeps exactly the OTHER jobs' ensembles plus `mine` busy. -/
+theorem step_substeps_exact (y0 y y' : Sys) (evs : List Ev) (h0 : Start y0) (hr : run y0 evs = .ok y)
+    (k : Nat) (status : Status) (newW : List (List Rat)) (o : PickOutcome)
+    (hs : sysStep y (.step k status newW o) = .ok y') :
+    ∃ job s1 s2 pns it, y.jobs[k]? = some job ∧ loop y.s = (s1, true) ∧
+      treatOutput s1 job status newW (sortFuel s1) = .ok (s2, pns, it) ∧
+      (∀ m ∈ treatTrace s1 job status newW (sortFuel s1),
+        ExactBusy m.st (m.mine ++ held (y.jobs.eraseIdx k))) ∧
+      (s2.cstep + s2.workers ≤ s2.tsteps →
+        (∀ m ∈ prepTrace s2 o 0, ExactBusy m.st (m.mine ++ held (y.jobs.eraseIdx k))) ∧
+        ∃ job' m, y'.jobs = y.jobs.eraseIdx k ++ [job'] ∧ (prepTrace s2 o 0).getLast? = some m ∧
+          m.st.W = y'.s.W ∧ m.st.trajs = y'.s.trajs ∧ m.st.locks = y'.s.locks ∧
+          m.mine.Perm (job'.picked.map (fun p => (slotOf p, p.pn)))) := by
+  obtain ⟨job, s1, s2, pns, it, hjob, hloop, htreat, hcase⟩ := step_decompose k status newW o hs
+  have hc1 := coreR_at_completion h0 hr k job hjob s1 true hloop
+  obtain ⟨hc2, _⟩ := treatOutput_coreR job status newW _ pns it hc1 htreat
+  refine ⟨job, s1, s2, pns, it, hjob, hloop, htreat,
+    treat_substeps_exact y0 y evs h0 hr k job hjob s1 hloop status newW s2 pns it htreat, ?_⟩
+  intro hre
+  rcases hcase with ⟨_, s3, job', ds, hprep, rfl⟩ | ⟨hno, _⟩
+  · refine ⟨fun m hm => exactBusy_of_coreR (prepTrace_coreR _ o 0 job' ds hc2 hprep m hm), job', ?_⟩
+    obtain ⟨m, hm, hW, hT, hL, hP⟩ := prepTrace_last _ o 0 job' ds hc2 hprep
+    exact ⟨m, rfl, hm, hW, hT, hL, hP⟩
+  · exact absurd hre hno
+
+example : run exSys (exEvs.take 3) = .ok (exAt 3)
+    ∧ sysStep (exAt 3) (.step 0 .acc [[1], [1, 1, 0]] { t := 0, e := 0, coin := false }) = .ok (exAt 4) := by
+  refine ⟨ex_runs 3 (by decide), ?_⟩
+  have h4 := ex_runs 4 (by decide)
+  have h3 := ex_runs 3 (by decide)
+  have : exEvs.take 4 = exEvs.take 3 ++ [.step 0 .acc [[1], [1, 1, 0]] { t := 0, e := 0, coin := false }] := rfl
+  rw [this] at h4
+  obtain ⟨y1, hr1, hr2⟩ := run_append _ _ _ _ h4
+  rw [h3] at hr1
+  simp only [Except.ok.injEq] at hr1
+  subst hr1
+  unfold run at hr2
+  split at hr2
+  · exact absurd hr2 (by simp)
+  · rename_i y2 hstep
+    simp only [run, Except.ok.injEq] at hr2
+    rw [hstep, hr2]
+
+/-! ## 10. The engine table comes from `create_engines`
+
+`Infretis.Repex.Factory.createEngines` mirrors `factory.create_engines` (count the occurrences of
+every engine name in `ensemble_engines`, dict order; per name `min(count, workers)` instances: one
+`-1` in `engine_occ[name]` and one new engine object in `engines[name]` per instance).  Section 6
+assumed `EngInit`; here it is DERIVED for the table `create_engines` builds, so engine availability
+and exclusivity are statements about the composed boot → prep → assign → complete model. -/
+
+open Infretis.Repex.Factory in
+/-- **What `create_engines` returns**: the keys are the engine names written in `ensemble_engines`,
+    each once; name `k` gets `min(#occurrences of k, workers)` instances, all free (`-1`);
+    `engines[k]` has one object per instance, and all engine objects of all names are pairwise
+    distinct (one `create_engine` call each). -/
+theorem create_engines_spec (ensEng : List (List Nat)) (workers : Nat) :
+    (∀ k, occRow (createEngines ensEng workers) k
+        = List.replicate (min (ensEng.flatten.count k) workers) (-1)) ∧
+    (createEngines ensEng workers).objs.map List.length
+      = (createEngines ensEng workers).occ.map List.length ∧
+    ((createEngines ensEng workers).objs.flatten).Nodup ∧
+    (createEngines ensEng workers).names = (engineCount ensEng).map Prod.fst ∧
+    (∀ k, k ∈ (createEngines ensEng workers).names ↔ k ∈ ensEng.flatten) := by
+  refine ⟨occRow_createEngines ensEng workers, ?_, ?_, createLoop_names _ _ _, ?_⟩
+  · obtain ⟨h1, h2⟩ := createLoop_shape workers (engineCount ensEng) 0
+    unfold createEngines
+    rw [h1, h2, List.map_map]
+    apply List.map_congr_left
+    intro a _
+    simp
+  · unfold createEngines
+    rw [createLoop_objs_flatten]
+    exact List.nodup_range'
+  · intro k
+    unfold createEngines
+    rw [createLoop_names]
+    have hl := engineCount_lookup ensEng k
+    constructor
+    · intro hk
+      by_contra hnot
+      rw [if_pos (List.count_eq_zero.mpr hnot)] at hl
+      rw [List.lookup_eq_none_iff] at hl
+      obtain ⟨a, ha, rfl⟩ := List.mem_map.mp hk
+      have := hl a ha
+      simp at this
+    · intro hk
+      rw [if_neg (by have := List.count_pos_iff.mpr hk; omega)] at hl
+      exact List.mem_map.mpr ⟨_, lookup_mem _ _ _ hl, rfl⟩
+
+example : Infretis.Repex.Factory.createEngines [[0], [1, 0], [1], [1]] 2
+    = { names := [0, 1], objs := [[0, 1], [2, 3]], occ := [[-1, -1], [-1, -1]] } := by decide
+
+open Infretis.Repex.Factory in
+/-- **`EngInit` holds for the table `create_engines` builds** (every ensemble lists at least one
+    engine — `check_config` — and the type numbers used are below `m`). -/
+theorem created_engines_engInit (y : Sys) (m : Nat)
+    (hocc : y.s.occ = occTable (createEngines y.s.ensEng y.s.workers) m)
+    (hm : ∀ k ∈ y.s.ensEng.flatten, k < m)
+    (hne : ∀ e, e < y.s.n - 1 → y.s.ensEng.getD e [] ≠ []) : EngInit y :=
+  engInit_of_createEngines y m hocc hm hne
+
+open Infretis.Repex.Factory in
+/-- **Engine availability for the composed boot**: fresh start (`Init`), engine table built by
+    `create_engines` from the configured `ensemble_engines` and `workers`: along every
+    scheduler-shaped history no `start` event fails in its engine part. -/
+theorem engine_always_available_boot_start (y0 y : Sys) (m : Nat) (starts : List Ev) (h0 : Init y0)
+    (hocc : y0.s.occ = occTable (createEngines y0.s.ensEng y0.s.workers) m)
+    (hm : ∀ k ∈ y0.s.ensEng.flatten, k < m)
+    (hne : ∀ e, e < y0.s.n - 1 → y0.s.ensEng.getD e [] ≠ [])
+    (hs : ∀ ev ∈ starts, isStart ev = true) (hr : run y0 starts = .ok y)
+    (o : PickOutcome) (saved : Nat) (s1 : St) (hgo : initiate y.s = (s1, true))
+    (s1' : St) (ps : List Picked) (ds : List Draw) (hpick : pickPart s1 o saved = .ok (s1', ps, ds)) :
+    ∃ y', sysStep y (.start o saved) = .ok y' :=
+  engine_always_available_start y0 y starts h0 (created_engines_engInit y0 m hocc hm hne) hs hr
+    o saved s1 hgo s1' ps ds hpick
+
+open Infretis.Repex.Factory in
+/-- … and no `step` event of the main loop fails in its engine part. -/
+theorem engine_always_available_boot_step (y0 y : Sys) (m : Nat) (starts steps : List Ev) (h0 : Init y0)
+    (hocc : y0.s.occ = occTable (createEngines y0.s.ensEng y0.s.workers) m)
+    (hm : ∀ k ∈ y0.s.ensEng.flatten, k < m)
+    (hne : ∀ e, e < y0.s.n - 1 → y0.s.ensEng.getD e [] ≠ [])
+    (hs : ∀ ev ∈ starts, isStart ev = true) (ht : ∀ ev ∈ steps, isStep ev = true)
+    (hr : run y0 (starts ++ .initDone :: steps) = .ok y)
+    (k : Nat) (status : Status) (newW : List (List Rat)) (o : PickOutcome) (job : Job)
+    (hj : y.jobs[k]? = some job) (s1 : St) (hloop : loop y.s = (s1, true))
+    (s2 : St) (pns : List Nat) (it : Nat)
+    (htr : treatOutput s1 job status newW (sortFuel s1) = .ok (s2, pns, it))
+    (hre : s2.cstep + s2.workers ≤ s2.tsteps) (s3 : St) (ps : List Picked) (ds : List Draw)
+    (hpick : pickPart s2 o 0 = .ok (s3, ps, ds)) :
+    ∃ y', sysStep y (.step k status newW o) = .ok y' :=
+  engine_always_available_step y0 y starts steps h0 (created_engines_engInit y0 m hocc hm hne) hs ht hr
+    k status newW o job hj s1 hloop s2 pns it htr hre s3 ps ds hpick
+
+example : exSys2.s.occ
+      = Infretis.Repex.Factory.occTable (Infretis.Repex.Factory.createEngines exSys2.s.ensEng exSys2.s.workers) 2
+    ∧ (∀ k ∈ exSys2.s.ensEng.flatten, k < 2)
+    ∧ (∀ e, e < exSys2.s.n - 1 → exSys2.s.ensEng.getD e [] ≠ []) ∧ Init exSys2 :=
+  ⟨by decide +kernel, by decide +kernel, by decide +kernel, ex_init2⟩
+
+open Infretis.Repex.Factory in
+/-- **No two jobs in flight run with the same engine OBJECT** (fresh start or restart): `select_shoot`
+    resolves the instance `(type, index)` of a picked ensemble to `ENGINES[type][index]`
+    (`engineObj`); if the jobs at positions `i1`, `i2` of the in-flight list list instances that
+    resolve to one object of the engines `create_engines` built, then `i1 = i2`.  (Composition of
+    `engine_instance_exclusive_restart` with: every instance is a separate object.) -/
+theorem engine_object_exclusive (y0 y : Sys) (evs : List Ev) (h0 : Start y0) (hr : run y0 evs = .ok y)
+    (ensEng : List (List Nat)) (workers : Nat)
+    (i1 i2 : Nat) (j1 j2 : Job) (h1 : y.jobs[i1]? = some j1) (h2 : y.jobs[i2]? = some j2)
+    (p1 p2 : Picked) (hp1 : p1 ∈ j1.picked) (hp2 : p2 ∈ j2.picked) (ki1 ki2 : Nat × Nat)
+    (hk1 : ki1 ∈ p1.engIdx) (hk2 : ki2 ∈ p2.engIdx) (o : Nat)
+    (ho1 : engineObj (createEngines ensEng workers) ki1 = some o)
+    (ho2 : engineObj (createEngines ensEng workers) ki2 = some o) : i1 = i2 := by
+  have hki := engineObj_inj ensEng workers ki1 ki2 o ho1 ho2
+  subst hki
+  exact engine_instance_exclusive_restart y0 y evs h0 hr i1 i2 j1 j2 h1 h2 p1 p2 hp1 hp2 ki1 hk1 hk2
+
+example : (exAt 5).jobs.map (fun j => j.picked.map (fun p => p.engIdx.map
+      (Infretis.Repex.Factory.engineObj (Infretis.Repex.Factory.createEngines [[0], [0], [0]] 2))))
+    = [[[some 0]], [[some 1]]] := by decide +kernel
+
+/-! ### engine availability across restarts
+
+Section 6 was proved for fresh starts.  A restarted process builds its engine table anew (all cells
+free) with nothing in flight, the recorded jobs are re-issued by `pick_lock` through the very same
+`prep_md_items` → `assign_engines`: the counting argument of section 6 goes through over the restart
+invariant (`RepexC03AvailSysR`).  `Start y0` = fresh start or restart. -/
+
+/-- **During initiation, fresh start or restart** (also while recorded jobs are being re-issued):
+    if `initiate()` answers yes and `pick_lock()` succeeds, the whole `start` event succeeds. -/
+theorem engine_always_available_start_restart (y0 y : Sys) (starts : List Ev) (h0 : Start y0)
+    (hj : y0.jobs = []) (hE : EngInit y0) (hs : ∀ ev ∈ starts, isStart ev = true)
+    (hr : run y0 starts = .ok y)
+    (o : PickOutcome) (saved : Nat) (s1 : St) (hgo : initiate y.s = (s1, true))
+    (s1' : St) (ps : List Picked) (ds : List Draw) (hpick : pickPart s1 o saved = .ok (s1', ps, ds)) :
+    ∃ y', sysStep y (.start o saved) = .ok y' :=
+  start_availableR (run_starts_ER starts hs (EInvR.ofStart h0 hj hE) hr) o saved s1 hgo s1' ps ds hpick
+
+/-- **In the main loop, fresh start or restart.** -/
+theorem engine_always_available_step_restart (y0 y : Sys) (starts steps : List Ev) (h0 : Start y0)
+    (hj : y0.jobs = []) (hE : EngInit y0) (hs : ∀ ev ∈ starts, isStart ev = true)
+    (ht : ∀ ev ∈ steps, isStep ev = true)
+    (hr : run y0 (starts ++ .initDone :: steps) = .ok y)
+    (k : Nat) (status : Status) (newW : List (List Rat)) (o : PickOutcome) (job : Job)
+    (hjk : y.jobs[k]? = some job) (s1 : St) (hloop : loop y.s = (s1, true))
+    (s2 : St) (pns : List Nat) (it : Nat)
+    (htr : treatOutput s1 job status newW (sortFuel s1) = .ok (s2, pns, it))
+    (hre : s2.cstep + s2.workers ≤ s2.tsteps) (s3 : St) (ps : List Picked) (ds : List Draw)
+    (hpick : pickPart s2 o 0 = .ok (s3, ps, ds)) :
+    ∃ y', sysStep y (.step k status newW o) = .ok y' := by
+  obtain ⟨he, hph⟩ := einvR_of_shaped h0 hj hE starts steps hs ht hr
+  have hlt : y.s.toinitiate < 0 := by
+    rcases hph with h1 | h1
+    · exact h1
+    · exfalso
+      unfold loop at hloop
+      rw [if_pos (by omega)] at hloop
+      simp at hloop
+  exact step_availableR he hlt k status newW o job hjk s1 hloop s2 pns it htr hre s3 ps ds hpick
+
+theorem ex_engInitR : EngInit exSysR := by
+  have hocc : exSysR.s.occ = [[-1, -1]] := by decide +kernel
+  have hens : exSysR.s.ensEng = [[0], [0], [0]] := by decide +kernel
+  have hn : exSysR.s.n = 4 := by decide +kernel
+  have hw : exSysR.s.workers = 2 := by decide +kernel
+  constructor
+  · intro k i x hx
+    rw [hocc] at hx
+    match k, i with
+    | 0, 0 => simpa [cell] using hx.symm
+    | 0, 1 => simpa [cell] using hx.symm
+    | 0, i + 2 => simp [cell] at hx
+    | k + 1, i => simp [cell] at hx
+  · intro k l hl
+    rw [hocc] at hl
+    rw [hw, hens, hn]
+    match k with
+    | 0 => simp at hl; subst hl; decide
+    | k + 1 => simp at hl
+  · intro e he
+    rw [hn] at he
+    rw [hens, hocc]
+    match e, he with
+    | 0, _ => exact ⟨by decide, fun k hk => by simp at hk; subst hk; exact ⟨_, rfl⟩⟩
+    | 1, _ => exact ⟨by decide, fun k hk => by simp at hk; subst hk; exact ⟨_, rfl⟩⟩
+    | 2, _ => exact ⟨by decide, fun k hk => by simp at hk; subst hk; exact ⟨_, rfl⟩⟩
+
+example : Start exSysR ∧ exSysR.jobs = [] ∧ EngInit exSysR
+    ∧ run exSysR (exEvsR.take 1) = .ok (exRAt 1) ∧ (initiate (exRAt 1).s).2 = true
+    ∧ (pickPart (initiate (exRAt 1).s).1 { t := 2, e := 2 } 0).toBool = true
+    ∧ exEvsR = exEvsR.take 2 ++ .initDone :: exEvsR.drop 3 ∧ (run exSysR exEvsR).toBool = true :=
+  ⟨Or.inr ex_initR, rfl, ex_engInitR, ex_runsR 1 (by decide), by decide +kernel, by decide +kernel, rfl,
+    by decide +kernel⟩
+
+/-! ## 11. The branch structure of `pick()` around the zero swap
+
+`pickCore` mirrors `pick()` + `pick_traj_ens()`.  Which draws it requests and when it takes the
+zero-swap branch, read off the definition (no invariant needed).  Neither `tis_set.quantis` nor
+`tis_set.lambda_minus_one` is read by `pick` / `pick_traj_ens` / `pick_lock`: they change what
+`select_shoot` does with a two-ensemble job, not which job is picked. -/
+
+/-- **The coin is drawn exactly when the picked ensemble is `[0-]` or `[0+]` and the OTHER of the two
+    is idle (after the picked one was locked); a zero swap starts exactly when the coin is drawn and
+    falls below `zeroswap`; only then a partner is drawn.**  Slot 0 = `[0-]`, slot 1 = `[0+]`. -/
+theorem zero_swap_branch (s s' : St) (o : PickOutcome) (pairs : List (Int × Option Nat)) (ds : List Draw)
+    (hl : 2 ≤ s.locks.length) (hp : pickCore s o = .ok (s', pairs, ds)) :
+    let coinDrawn := (o.e = 1 ∧ s.locks[0]? = some false) ∨ (o.e = 0 ∧ s.locks[1]? = some false)
+    (coinDrawn ↔ 2 ≤ ds.length) ∧
+    (pairs.length = 2 ↔ coinDrawn ∧ o.coin = true) ∧
+    (pairs.length = 2 ↔ ds.length = 3) ∧
+    (pairs.length = 1 ∨ pairs.length = 2) ∧ 1 ≤ ds.length ∧ ds.length ≤ 3 := by
+  intro coinDrawn
+  unfold pickCore at hp
+  simp only [] at hp
+  split at hp
+  · exact absurd hp (by simp)
+  split at hp
+  · exact absurd hp (by simp)
+  rename_i s2 hlk
+  obtain ⟨hle, hs2⟩ := lock_ok hlk
+  have hlen : (swap s o.t o.e).locks = s.locks := rfl
+  rw [hlen] at hle
+  have hL2 : s2.locks = s.locks.set o.e true := by rw [hs2]; rfl
+  -- the zero-swap condition, in terms of the flags before the pick
+  have hcond : ((o.e == off && (s2.locks.getD (off - 1) true == false)) ||
+      (o.e == off - 1 && (s2.locks.getD off true == false))) = true ↔ coinDrawn := by
+    simp only [coinDrawn, off, Bool.or_eq_true, Bool.and_eq_true, beq_iff_eq, hL2]
+    constructor
+    · rintro (⟨h1, h2⟩ | ⟨h1, h2⟩)
+      · left
+        refine ⟨h1, ?_⟩
+        rw [h1] at h2
+        rw [List.getD_eq_getElem?_getD, List.getElem?_set_ne (by decide)] at h2
+        rw [List.getElem?_eq_getElem (by omega)] at h2 ⊢
+        simpa using h2
+      · right
+        refine ⟨h1, ?_⟩
+        rw [h1] at h2
+        rw [List.getD_eq_getElem?_getD, List.getElem?_set_ne (by decide)] at h2
+        rw [List.getElem?_eq_getElem (by omega)] at h2 ⊢
+        simpa using h2
+    · rintro (⟨h1, h2⟩ | ⟨h1, h2⟩)
+      · left
+        refine ⟨h1, ?_⟩
+        rw [h1, List.getD_eq_getElem?_getD, List.getElem?_set_ne (by decide), h2]
+        rfl
+      · right
+        refine ⟨h1, ?_⟩
+        rw [h1, List.getD_eq_getElem?_getD, List.getElem?_set_ne (by decide), h2]
+        rfl
+  have hlen2 : ∀ (c : Prop) [Decidable c] (x y : List (Int × Option Nat)), x.length = 2 → y.length = 2 →
+      (if c then x else y).length = 2 := by
+    intro c _ x y hx hy
+    split <;> assumption
+  generalize hother : (if (o.e == off) = true then off - 1 else off) = other at hp
+  generalize hzs : ((o.e == off && (s2.locks.getD (off - 1) true == false)) ||
+      (o.e == off - 1 && (s2.locks.getD off true == false))) = zs at hp hcond
+  split at hp
+  · rename_i hzc
+    simp only [Bool.and_eq_true] at hzc
+    obtain ⟨hz, hcoin⟩ := hzc
+    have hcd := hcond.mp hz
+    split at hp
+    · exact absurd hp (by simp)
+    split at hp
+    · exact absurd hp (by simp)
+    simp only [Except.ok.injEq, Prod.mk.injEq] at hp
+    obtain ⟨_, rfl, rfl⟩ := hp
+    have hp2 := fun (x y : Option Nat) (u v : Option Nat) =>
+      hlen2 ((o.e == off) = true) [((-1 : Int), x), ((0 : Int), y)] [((-1 : Int), u), ((0 : Int), v)] rfl rfl
+    exact ⟨⟨fun _ => by simp, fun _ => hcd⟩, ⟨fun _ => ⟨hcd, hcoin⟩, fun _ => hp2 _ _ _ _⟩,
+      ⟨fun _ => by simp, fun _ => hp2 _ _ _ _⟩, Or.inr (hp2 _ _ _ _), by simp, by simp⟩
+  · rename_i hzc
+    simp only [Except.ok.injEq, Prod.mk.injEq] at hp
+    obtain ⟨_, rfl, rfl⟩ := hp
+    by_cases hz : zs = true
+    · have hcd := hcond.mp hz
+      have hcf : ¬ o.coin = true := fun hc => hzc (by simp [hz, hc])
+      rw [if_pos hz]
+      exact ⟨⟨fun _ => by simp, fun _ => hcd⟩, ⟨fun h => by simp at h, fun h => absurd h.2 hcf⟩,
+        ⟨fun h => by simp at h, fun h => by simp at h⟩, Or.inl rfl, by simp, by simp⟩
+    · have hncd : ¬ coinDrawn := fun h => hz (hcond.mpr h)
+      rw [if_neg hz]
+      exact ⟨⟨fun h => absurd h hncd, fun h => by simp at h⟩,
+        ⟨fun h => by simp at h, fun h => absurd h.1 hncd⟩,
+        ⟨fun h => by simp at h, fun h => by simp at h⟩, Or.inl rfl, by simp, by simp⟩
+
+example : 2 ≤ exS0.locks.length
+    ∧ (pickCore exS0 { t := 0, e := 0, coin := true, partner := 1 }).toOption.map
+        (fun r => (r.2.1.length, r.2.2.length)) = some (2, 3)
+    ∧ (pickCore exS0 { t := 0, e := 0, coin := false, partner := 1 }).toOption.map
+        (fun r => (r.2.1.length, r.2.2.length)) = some (1, 2)
+    ∧ (pickCore exS0 { t := 2, e := 2, coin := true, partner := 1 }).toOption.map
+        (fun r => (r.2.1.length, r.2.2.length)) = some (1, 1) := by decide +kernel
 
 end Infretis.C03
